@@ -570,9 +570,11 @@ def _fold_offsets(proj, store):
         return proj
     out = []
     pending = 0
+    plen = None
     for e in proj:
         if e[0] == 'off':
             pending += e[1]
+            plen = e[2] if len(e) > 2 else None
         elif e[0] == 'ci' and not e[3] and pending:
             out.append(['ci', e[1] + pending, 0, False])
             pending = 0
@@ -587,6 +589,9 @@ def _fold_offsets(proj, store):
             out.append(e)
         else:
             out.append(e)
+    if proj and proj[-1][0] == 'off':
+        # a view that is used as a whole (passed to a callee, copied, measured): keep it as a slice
+        out.append(['slice', pending, plen])
     return out
 
 
@@ -674,6 +679,10 @@ class Frame:
                     return TOP
             if e[0] == 'deref':
                 continue
+            if e[0] == 'slice' and isinstance(v, Agg):
+                hi_ = len(v.items) if e[2] is None else min(len(v.items), e[1] + e[2])
+                v = Agg(v.items[e[1]:hi_], v.kind)
+                continue
             if isinstance(v, ConstField) and e[0] == 'f':
                 # field of a constant struct (e.g. Fq2.c0): stays a constant
                 keys = list(v.v['fields'].keys())
@@ -698,6 +707,13 @@ class Frame:
         e = proj[0]
         if e[0] == 'deref':
             return self._update(cur, proj[1:], val)
+        if e[0] == 'slice' and isinstance(cur, Agg) and isinstance(val, Agg) and len(proj) == 1:
+            items = list(cur.items)
+            hi_ = len(items) if e[2] is None else min(len(items), e[1] + e[2])
+            if len(val.items) == hi_ - e[1]:
+                items[e[1]:hi_] = list(val.items)
+                return Agg(items, cur.kind)
+            return TOP
         idx = None
         if e[0] == 'f':
             idx = e[1]
@@ -890,6 +906,7 @@ class Interp:
     def _run_path(self, fr, bb, pth, work, results, stop_at=None):
         body = fr.body
         while True:
+            self._cur_path = pth        # for hooks that record events while statements (not calls) are interpreted
             if stop_at is not None and bb == stop_at:
                 results.append((pth, ('stopped', fr), {}))
                 return
